@@ -144,7 +144,16 @@ func c7reference(layout []c7task, useStop bool) c7expect {
 	return exp
 }
 
+// c7check judges both combiners of the tree on one layout: the exported CombineBindingContextForHook (a copy kept
+// for addon-operator) and the one the operator's task handler calls (reached through the verif-tagged VerifCombine).
 func c7check(res *vlib.Result, layout []c7task, useStop bool, sigPrefix string) bool {
+	a := c7checkImpl(res, layout, useStop, sigPrefix, false)
+	b := c7checkImpl(res, layout, useStop, sigPrefix+"handler-combiner/", true)
+	return a && b
+}
+
+func c7checkImpl(res *vlib.Result, layout []c7task, useStop bool, sigPrefix string, handlerImpl bool) bool {
+	layout = append([]c7task{}, layout...)
 	op, q, tasks := c7build(layout)
 	exp := c7reference(layout, useStop)
 	var stopFn func(task.Task) bool
@@ -157,7 +166,12 @@ func c7check(res *vlib.Result, layout []c7task, useStop bool, sigPrefix string) 
 		}
 		stopFn = func(t task.Task) bool { return stops[t.GetId()] }
 	}
-	got := op.CombineBindingContextForHook(q, tasks[0], stopFn)
+	var got *shell_operator.CombineResult
+	if handlerImpl {
+		got = op.VerifCombine(q, tasks[0], stopFn)
+	} else {
+		got = op.CombineBindingContextForHook(q, tasks[0], stopFn)
+	}
 	return c7compare(res, layout, exp, got, q, sigPrefix)
 }
 
@@ -392,7 +406,13 @@ func TestC07Lib(t *testing.T) {
 		gate := vlib.NewGate()
 		pts.On("combine.betweenIterateAndFilter", func(ev vlib.PointEvent) { gate.Park() })
 		done := make(chan *shell_operator.CombineResult, 1)
-		go func() { done <- op.CombineBindingContextForHook(q, tasks[0], nil) }()
+		go func() {
+			if c.Index%2 == 1 {
+				done <- op.VerifCombine(q, tasks[0], nil) // the task handler's combiner
+				return
+			}
+			done <- op.CombineBindingContextForHook(q, tasks[0], nil)
+		}()
 		<-gate.Arrived
 		// producer: append tasks of the same hook (and sometimes of another one)
 		k := 1 + rng.IntN(3)
@@ -447,7 +467,12 @@ func TestC07Lib(t *testing.T) {
 			}
 		}()
 		close(start)
-		got := op.CombineBindingContextForHook(q, tasks[0], nil)
+		var got *shell_operator.CombineResult
+		if c.Index%2 == 1 {
+			got = op.VerifCombine(q, tasks[0], nil) // the task handler's combiner
+		} else {
+			got = op.CombineBindingContextForHook(q, tasks[0], nil)
+		}
 		<-prodDone
 		inQueue := map[string]bool{}
 		q.Iterate(func(tk task.Task) { inQueue[tk.GetId()] = true })
